@@ -116,6 +116,14 @@ func C04(c *fw.Ctx) {
 			rule := e[:strings.Index(e, ":")]
 			c.Violate("shape:"+rule, e, replayOf(j, res))
 		}
+		// an inheriting object carries what it inherits (objects carry children)
+		ar := ref.AllOfInheritance(v1)
+		c.Inc("inheritance", "objects_with_allOf_judged", ar.Objects)
+		c.Inc("inheritance", "of_these_nested_in_another_object", ar.Nested)
+		c.Inc("inheritance", "inherited_keys_found", ar.Keys)
+		for _, e := range ar.Errors {
+			c.Violate("shape:allOf-children-missing", e, replayOf(j, res))
+		}
 		if c.NeedSample() && label == "targeted" {
 			c.Sample(map[string]interface{}{"document": sampleDoc(j.Files[j.Root]), "json_len": js.Len, "schema_nodes": rep.Nodes})
 		}
